@@ -59,7 +59,15 @@ Value& MemberSETExpression::value(Context& ctx) const
       case Type::INTEGER:
         if (a0.type() == Type::NUMERIC)
         {
-          rv->at(_index).swap(Value(Integer(*a0.numeric())));
+          if (a0.isNull())
+            rv->at(_index).swap(Value(Value::type_integer));
+          else
+          {
+            Numeric d = *a0.numeric();
+            if (!(d >= -9223372036854775808.0 && d < 9223372036854775808.0))
+              throw RuntimeError(EXC_RT_OUT_OF_RANGE);
+            rv->at(_index).swap(Value(static_cast<Integer>(d)));
+          }
           return val;
         }
         else if (a0.type() == Type::NO_TYPE)
@@ -71,7 +79,10 @@ Value& MemberSETExpression::value(Context& ctx) const
       case Type::NUMERIC:
         if (a0.type() == Type::INTEGER)
         {
-          rv->at(_index).swap(Value(Numeric(*a0.integer())));
+          if (a0.isNull())
+            rv->at(_index).swap(Value(Value::type_numeric));
+          else
+            rv->at(_index).swap(Value(Numeric(*a0.integer())));
           return val;
         }
         else if (a0.type() == Type::NO_TYPE)
